@@ -198,6 +198,7 @@ class Driver:
             input="\n".join(lines) + "\n",
             capture_output=True,
             text=True,
+            timeout=int(os.environ.get("VERIF_DRIVER_TIMEOUT", "900")),
         )
         out = p.stdout.splitlines()
         if p.returncode != 0 or len(out) != len(lines):
